@@ -1,5 +1,5 @@
 (* C11S — source tie by translation for every component of the training loop.
-   Statements only (proofs: Proofs/ChainP.v).  Model/Chains.v is REGENERATED from /repo's Go sources
+   Statements only (proofs: Proofs/Chain*P.v).  Model/Chains.v is REGENERATED from /repo's Go sources
    on every run by the translator harness/chainx (go/ast): the straight-line chains of Tensor method
    calls of FC.forward, the activations, the losses and SGD.Update.
    Each theorem interprets the generated chain with the model's own operations (Model/ChainIR.v) and
@@ -9,7 +9,7 @@
 From Coq Require Import String List ZArith Bool.
 From Qeep Require Import Model.Scalar Model.Nd Model.Data Model.Valid Model.Api Model.Grad Model.Components Model.ChainIR.
 From Qeep Require Model.Chains.
-From Qeep Require Import Proofs.ChainP.
+From Qeep Require Import Proofs.ChainBaseP Proofs.ChainActP Proofs.ChainFcP Proofs.ChainLossP Proofs.ChainSgdP.
 Import ListNotations.
 Local Open Scope string_scope.
 
@@ -21,28 +21,28 @@ Theorem fc_forward_is_its_source_chain :
     (asHres
        (runFun (hooksH rsNone noUser nm noGuard) Chains.fc_forward h
           [("c.Weight", w); ("c.Bias", b); ("x", x)])).
-Proof. exact @ChainP.fc_chain. Qed.
+Proof. exact @ChainFcP.fc_chain. Qed.
 Print Assumptions fc_forward_is_its_source_chain.
 
 Theorem relu_forward_is_its_source_chain :
   forall (A : Type) (SA : Scalar A) (h : heap) (x : nat) (nm : option nat),
   relu_forward h [Some x] nm =
   atomically h (asHres (runFun (hooksH rsNone noUser nm noGuard) Chains.relu_forward h [("x", x)])).
-Proof. exact @ChainP.relu_chain. Qed.
+Proof. exact @ChainActP.relu_chain. Qed.
 Print Assumptions relu_forward_is_its_source_chain.
 
 Theorem sigmoid_forward_is_its_source_chain :
   forall (A : Type) (SA : Scalar A) (h : heap) (x : nat) (nm : option nat),
   sigmoid_forward h [Some x] nm =
   atomically h (asHres (runFun (hooksH rsNone noUser nm noGuard) Chains.sigmoid_forward h [("x", x)])).
-Proof. exact @ChainP.sigmoid_chain. Qed.
+Proof. exact @ChainActP.sigmoid_chain. Qed.
 Print Assumptions sigmoid_forward_is_its_source_chain.
 
 Theorem tanh_forward_is_its_source_chain :
   forall (A : Type) (SA : Scalar A) (h : heap) (x : nat) (nm : option nat),
   tanh_forward h [Some x] nm =
   asHres (runFun (hooksH rsNone noUser nm noGuard) Chains.tanh_forward h [("x", x)]).
-Proof. exact @ChainP.tanh_chain. Qed.
+Proof. exact @ChainActP.tanh_chain. Qed.
 Print Assumptions tanh_forward_is_its_source_chain.
 
 Theorem leaky_forward_is_its_source_chain :
@@ -50,7 +50,7 @@ Theorem leaky_forward_is_its_source_chain :
   leaky_forward h m [Some x] nm =
   atomically h
     (asHres (runFun (hooksH (rsLeaky m) noUser nm noGuard) Chains.leaky_forward h [("x", x)])).
-Proof. exact @ChainP.leaky_chain. Qed.
+Proof. exact @ChainActP.leaky_chain. Qed.
 Print Assumptions leaky_forward_is_its_source_chain.
 
 Theorem softmax_forward_is_its_source_chain :
@@ -59,13 +59,13 @@ Theorem softmax_forward_is_its_source_chain :
   softmax_forward h dim [Some x] nm =
   atomically h
     (asHres (runFun (hooksH (rsSoftmax dim) noUser nm noGuard) Chains.softmax_forward h [("x", x)])).
-Proof. exact @ChainP.softmax_chain. Qed.
+Proof. exact @ChainActP.softmax_chain. Qed.
 Print Assumptions softmax_forward_is_its_source_chain.
 
 Theorem clip_is_its_source_chain :
   forall (A : Type) (SA : Scalar A) (h : heap) (x : nat) (l u : A),
   clip h x l u = asHres (runFun (hooksH (rsClip l u) noUser None noGuard) Chains.clip h [("x", x)]).
-Proof. exact @ChainP.clip_chain. Qed.
+Proof. exact @ChainLossP.clip_chain. Qed.
 Print Assumptions clip_is_its_source_chain.
 
 Theorem mse_compute_is_its_source_chain :
@@ -79,7 +79,7 @@ Theorem mse_compute_is_its_source_chain :
                         | Some _ => true
                         | None => false
                         end)) Chains.mse_compute h [("yp", p); ("yt", t)])).
-Proof. exact @ChainP.mse_chain. Qed.
+Proof. exact @ChainLossP.mse_chain. Qed.
 Print Assumptions mse_compute_is_its_source_chain.
 
 Theorem bce_compute_is_its_source_chain :
@@ -93,7 +93,7 @@ Theorem bce_compute_is_its_source_chain :
                         | Some _ => true
                         | None => false
                         end)) Chains.bce_compute h [("yp", p); ("yt", t)])).
-Proof. exact @ChainP.bce_chain. Qed.
+Proof. exact @ChainLossP.bce_chain. Qed.
 Print Assumptions bce_compute_is_its_source_chain.
 
 Theorem ce_compute_is_its_source_chain :
@@ -103,7 +103,7 @@ Theorem ce_compute_is_its_source_chain :
     (asHres
        (runFun (hooksH rsNone (clipUser eps ome) nm (lossGuard (ceOk h p t))) Chains.ce_compute h
           [("yp", p); ("yt", t)])).
-Proof. exact @ChainP.ce_chain. Qed.
+Proof. exact @ChainLossP.ce_chain. Qed.
 Print Assumptions ce_compute_is_its_source_chain.
 
 Theorem sgd_update_is_its_source_chain :
@@ -118,5 +118,5 @@ Theorem sgd_update_is_its_source_chain :
       end
   | None => (h, Panic)
   end.
-Proof. exact @ChainP.sgd_chain. Qed.
+Proof. exact @ChainSgdP.sgd_chain. Qed.
 Print Assumptions sgd_update_is_its_source_chain.
